@@ -263,6 +263,7 @@ class Check(object):
             'bounded': self.bounded, 'not_addressed': self.not_addressed, 'lemmas': self.lemmas,
             'undecided': [list(u) for u in self.undecided], 'samples': samples,
             'engine_errors': self.engine_errors, 'notes': self.notes,
+            'crosscheck': getattr(self, 'crosschecks', []),
             'obligation_table': [{'name': o.name, 'verdict': o.result['verdict'], 'backend': o.result['backend'],
                                   'seconds': o.result['seconds'], 'canary': o.canary} for o in self.obs],
         }
